@@ -59,6 +59,7 @@ func (h HelperContext) BlockWith(hc hctx.Context) (string, error) {
 	cc := *h.compiler
 	cc.ctx = ctx
 	cc.curStmt = nil
+	cc.loopControl = nil
 
 	i, err := cc.evalBlockStatement(h.block)
 	if err != nil {
@@ -67,6 +68,17 @@ func (h HelperContext) BlockWith(hc hctx.Context) (string, error) {
 			err = &blockError{stmt: cc.curStmt, err: err}
 		}
 		return "", err
+	}
+
+	// a break or continue in the block belongs to the loop around the
+	// helper's call: the block keeps what it has produced, and the
+	// evaluator that called the helper passes the signal on when the
+	// statement holding the call is done
+	switch ctl := i.(type) {
+	case continueObject:
+		i, h.compiler.loopControl = ctl.Value, continueObject{}
+	case breakObject:
+		i, h.compiler.loopControl = ctl.Value, breakObject{}
 	}
 
 	bb := &strings.Builder{}
